@@ -59,6 +59,16 @@ def run(pid, tier, seed, replay=None):
                                   lambda c=c: {"case": c, "event": find_event(c["part"], c["ep"])},
                                   "%s: %s %s.%s %s" % (c["ep"], c["clause"], cls, prop, what))
             cleanup(trace, rep)
+        # huge exact-identity forests (17 000 instances, values of more than a mebibyte, 66 000 keypoints), by fingerprint
+        trace = os.path.join(OUT, "C06_huge.ndjson")
+        rbxv(["cross-cases", "--seed", seed + 9, "--count", 4 if quick else 24, "--huge", 1], stdout_path=trace)
+        n, fails = validate_cases("CrossFormatTrace", trace, env, shards=1)
+        total += n
+        extra["huge_cases"] = n
+        for c in fails:
+            rep.violation("%s|huge" % c["clause"], lambda c=c: {"case": c, "event": find_event(c["part"], c["ep"])},
+                          "%s: %s (huge forest, compared by fingerprint)" % (c["ep"], c["clause"]))
+        cleanup(trace, rep)
     else:
         trace = os.path.join(OUT, "C15_mig.ndjson")
         rbxv(["mig-cases", "--stride", 4 if quick else 1], stdout_path=trace)
